@@ -252,6 +252,7 @@ type Frame struct {
 	parent   *Frame
 	free     map[*ssa.FreeVar]*Val
 	snaps    map[string]*State // labelled snapshots ("at L before call f")
+	phiFresh map[*ssa.Phi]*Val // header phis of cut loops: arbitrary value of an arbitrary iteration
 	retPos   token.Pos
 	retBlock *ssa.BasicBlock
 }
@@ -724,10 +725,27 @@ func (r *Run) enterLoopHeader(st *State, fr *Frame, h *ssa.BasicBlock, prev *ssa
 	invs := r.loopClauses(fr, k, "invariant")
 	decs := r.loopClauses(fr, k, "loopdecreases")
 	top := fr.depth == 0
+	// header phis (e.g. the hidden index of a range loop): their value on the edge we arrive by
+	phiIn := map[string]*Val{}
+	var phis []*ssa.Phi
+	for _, in := range h.Instrs {
+		phi, ok := in.(*ssa.Phi)
+		if !ok {
+			break
+		}
+		phis = append(phis, phi)
+		for pi, p := range h.Preds {
+			if p == prev {
+				phiIn[phi.Comment] = r.valueOf(st, fr, phi.Edges[pi])
+				phiIn[phi.Name()] = phiIn[phi.Comment]
+				phiIn[fmt.Sprintf("%s%d", phi.Comment, k)] = phiIn[phi.Comment]
+			}
+		}
+	}
 	if ol, open := st.open[h]; open {
 		// arrived through a back edge: invariant preservation and variant decrease
 		if top {
-			env := r.specEnv(st, fr, "inv")
+			env := r.specEnv(st, fr, "inv").with(phiIn)
 			env.loopHdr = h
 			for _, c := range invs {
 				g := env.evalBool(c.Expr)
@@ -743,11 +761,28 @@ func (r *Run) enterLoopHeader(st *State, fr *Frame, h *ssa.BasicBlock, prev *ssa
 	}
 	// first arrival: establish, havoc, assume
 	if top {
-		env := r.specEnv(st, fr, "inv")
+		env := r.specEnv(st, fr, "inv").with(phiIn)
 		env.loopHdr = h
 		for _, c := range invs {
 			g := env.evalBool(c.Expr)
 			r.oblige(st, fmt.Sprintf("loop%d.inv%d.entry", k, c.Ord), c.Props, "", g)
+		}
+	}
+	// the header's phis take the value of an arbitrary iteration
+	phiNow := map[string]*Val{}
+	for _, phi := range phis {
+		nv := freshVal(phi.Type(), "loop"+fmt.Sprint(k)+"."+phi.Name(), fr.te)
+		if fr.phiFresh == nil {
+			fr.phiFresh = map[*ssa.Phi]*Val{}
+		}
+		fr.phiFresh[phi] = nv
+		r.assumeWF(st, nv, fr.te)
+		phiNow[phi.Comment] = nv
+		phiNow[phi.Name()] = nv
+		phiNow[fmt.Sprintf("%s%d", phi.Comment, k)] = nv
+		// the hidden index of a range loop starts at -1 and only grows
+		if phi.Comment == "rangeindex" && len(nv.L) == 1 && nv.L[0].Sort == SInt {
+			st.assume(Ge(nv.L[0], IntLit(-1)))
 		}
 	}
 	// havoc cells assigned in the loop
@@ -764,7 +799,7 @@ func (r *Run) enterLoopHeader(st *State, fr *Frame, h *ssa.BasicBlock, prev *ssa
 	// havoc heap written in the loop
 	st.bumpTop()
 	r.havocLoopHeap(st, fr, h)
-	env := r.specEnv(st, fr, "inv")
+	env := r.specEnv(st, fr, "inv").with(phiNow)
 	env.loopHdr = h
 	for _, c := range invs {
 		st.assume(env.evalBool(c.Expr))
@@ -1103,6 +1138,10 @@ func (r *Run) execInstrs(st *State, fr *Frame, b *ssa.BasicBlock, idx int, prev 
 		in := b.Instrs[i]
 		switch x := in.(type) {
 		case *ssa.Phi:
+			if v, ok := fr.phiFresh[x]; ok {
+				fr.regs[x] = v
+				continue
+			}
 			for pi, p := range b.Preds {
 				if p == prev {
 					fr.regs[x] = r.valueOf(st, fr, x.Edges[pi])
@@ -1180,6 +1219,12 @@ func (fr *Frame) fork() *Frame {
 		n.cellOf[k] = v
 	}
 	n.defers = append([]*ssa.Defer(nil), fr.defers...)
+	if fr.phiFresh != nil {
+		n.phiFresh = make(map[*ssa.Phi]*Val, len(fr.phiFresh))
+		for k, v := range fr.phiFresh {
+			n.phiFresh[k] = v
+		}
+	}
 	if fr.snaps != nil {
 		n.snaps = make(map[string]*State, len(fr.snaps))
 		for k, v := range fr.snaps {
